@@ -86,6 +86,16 @@ def run_case(c, rng):
             o['report_timestep'] = rng.choice([o['hydraulic_timestep'] // 2, o['hydraulic_timestep'] + o['hydraulic_timestep'] // 2])
             c.count('odd_report_step_cases')
         ctrlgen.add_random_controls(spec, rng, n=(0, 4))
+        # junctions or whole zones cut off from every source during the run, some of them still cut off when it ends (side stream
+        # seeded by the case, so that the main stream stays what it was)
+        import random as _random
+        side = _random.Random(c.index * 104729 + len(spec['junctions']) * 31 + len(spec['pipes']))
+        if side.random() < 0.35:
+            if side.random() < 0.5:
+                gnet.add_isolation_schedule(spec, side, with_leak=0.3)
+            else:
+                gnet.add_zone_isolation(spec, side)
+            c.count('isolation_schedule_cases')
         sample = {'spec': spec}
         wn = gnet.build(spec, reset=False)     # straight from the add_* API
         nondef = any(p['status'] == 'CLOSED' for p in spec['pumps']) or any(v['status'] != 'ACTIVE' for v in spec['valves'])
@@ -117,10 +127,15 @@ def run_case(c, rng):
 
     cycles = rng.randint(1, 3)
     runs = []
+    # one simulator object for all cycles (as the repository's test_multiple_simulations does) or a new one per run
+    reuse = c.index % 2 == 1
+    one_sim = wntr.sim.WNTRSimulator(wn) if reuse else None
+    if reuse and cycles > 1:
+        c.count('cases_reusing_one_simulator')
     for i in range(cycles):
         if i > 0:
             wn.reset_initial_values()
-        tr = simobs.run_wntr(wn, deep=False)
+        tr = simobs.run_wntr(wn, deep=False, sim=one_sim)
         if tr.exception is not None or not simobs.converged(tr):
             c.inconclusive('sim_failed: %s' % (type(tr.exception).__name__ if tr.exception else 'not_converged'))
             return
